@@ -256,6 +256,13 @@ def oracle(case, res, hist):
     setcb_ret = hist.ret.get((R, cb_oi))
     if setcb_ret is None or setcb_ret[1][0] != "ok":
         return V, len(items)
+    # rare-condition probes: the hand-over from queue to callback actually happened inside setcallback
+    if any(s_ < setcb_ret[0] for s_, _ in items):
+        res.sched.probe("setcallback-drained-queued-items")
+    if any(s_ < setcb_ret[0] for s_ in ends):
+        res.sched.probe("endmarker-fired-inside-setcallback")
+    if items and any(s_ > setcb_ret[0] for s_, _ in items) and any(s_ < setcb_ret[0] for s_, _ in items):
+        res.sched.probe("callback-got-items-both-from-queue-and-receiver-thread")
     # receive() after setcallback must be refused
     for oi, op in enumerate(ops[cb_oi + 1:], cb_oi + 1):
         if op[0] == "recv":
